@@ -64,6 +64,7 @@ package runtime
 //@ method (*Scope).GetValue
 //@   requires scopeWF(sp)
 //@   pure
+//@   ensures  result == nil || okElem(result)
 //@   ensures  exists i int :: isLast(sp, name, i) && (i == 0 - 1 ? result == nil : result == sp.values[i])
 
 //@ method (*Scope).SetValue
@@ -127,6 +128,7 @@ package runtime
 //@ method (*Scope).GetValueWithModuleID
 //@   requires scopeWF(sp)
 //@   pure
+//@   ensures  r0 == nil || okElem(r0)
 //@   ensures  exists i int :: isLast(sp, name, i) && (i == 0 - 1 ? r0 == nil && r1 == 0 - 1 :
 //@               r0 == sp.values[i] && (has(sp.externalRefs, i) ? r1 == sp.externalRefs[i] : r1 == 0 - 1))
 
@@ -152,3 +154,208 @@ package runtime
 // the executor of a method / constructor: whatever it does, a nil error comes with a usable result
 //@ functype FuncExecutor(receiver, params) (r, err)
 //@   ensures err == nil ==> okElem(r)
+
+// ---- VM (C08 call frames, C10 accessors) ----
+
+//@ fieldinv VM.globals nonnil
+//@ fieldinv VM.externalLibs nonnil
+//@ fieldinv VM.valueStack nonnil
+//@ fieldinv VM.moduleGraph nonnil
+//@ fieldinv ModuleGraph.moduleNameMap nonnil
+//@ fieldinv Module.exportValues nonnil
+//@ fieldinv CallFrame.module nonnil
+//@ fieldinv CallFrame.thisValue nullable
+//@ fieldinv CallFrame.returnValue nullable
+//@ fieldinv Library.exportValues nonnil
+//@ globalinv NativeCodeModule nonnil
+
+// call stack: csCount live frames, each non-nil with a module whose scope exists; every registered scope is non-nil
+//@ pred vmWF(vm *VM) =
+//@   vm != nil && 0 <= vm.csCount && vm.csCount == len(vm.callStack) &&
+//@   (forall i int :: 0 <= i && i < vm.csCount ==> vm.callStack[i] != nil && has(vm.valueStack, vm.callStack[i].module.id)) &&
+//@   (forall k int :: has(vm.valueStack, k) ==> vm.valueStack[k] != nil)
+//@ typeinv VM vmWF(self)
+
+// a frame is active and the current module has a scope: what every evaluator step needs
+//@ pred frameOK(vm *VM) = vm.csCount >= 1 && has(vm.valueStack, vm.csModuleID)
+
+//@ method (*Module).GetID
+//@   pure
+//@   ensures result == m.id
+//@ method (*Module).GetName
+//@   pure
+//@   ensures result == m.fullName
+//@ method (*Module).GetProgram
+//@   pure
+//@   ensures result == m.program
+//@ method (*Module).GetAllExportValues
+//@   pure
+//@   ensures result == m.exportValues && result != nil
+//@ method (*Module).AddExportValue
+//@   requires okElem(value)
+//@   modifies map(m.exportValues)
+//@   ensures result == nil ==> has(m.exportValues, name) && m.exportValues[name] == value
+//@ method (*Module).GetExportValue
+//@   modifies nothing
+//@   ensures r1 == nil ==> okElem(r0) && has(m.exportValues, name) && r0 == m.exportValues[name]
+//@   ensures r1 != nil ==> !has(m.exportValues, name)
+
+//@ method (*IDName).GetLiteral
+//@   pure
+//@   ensures result == id.Literal
+//@ method (*IDNumber).GetLiteral
+//@   pure
+//@   ensures result == id.Literal
+//@ method (*IDNumber).GetValue
+//@   pure
+//@   ensures result == id.NumValue
+//@ func NewIDName
+//@   modifies nothing
+//@   ensures fresh(result) && result != nil && result.Literal == name
+
+//@ func NewScriptCallFrame
+//@   requires module != nil
+//@   modifies nothing
+//@   ensures fresh(result) && result != nil && result.module == module && result.callType == CALL_TYPE_SCRIPT && result.thisValue == nil && result.returnValue == nil
+//@ func NewFunctionCallFrame
+//@   requires module != nil && (thisValue == nil || okElem(thisValue))
+//@   modifies nothing
+//@   ensures fresh(result) && result != nil && result.module == module && result.callType == CALL_TYPE_FUNCTION && result.thisValue == thisValue && result.returnValue == nil
+//@ func NewExceptionCallFrame
+//@   requires module != nil && (thisValue == nil || okElem(thisValue))
+//@   modifies nothing
+//@   ensures fresh(result) && result != nil && result.module == module && result.callType == CALL_TYPE_EXCEPTION_BLOCK && result.thisValue == thisValue && result.returnValue == nil
+
+//@ method (*CallFrame).IsFunctionCallFrame
+//@   pure
+//@   ensures result == (cf.callType == CALL_TYPE_FUNCTION)
+//@ method (*CallFrame).GetModule
+//@   pure
+//@   ensures result == cf.module
+//@ method (*CallFrame).GetCurrentLine
+//@   pure
+//@   ensures result == cf.currentLine
+//@ method (*CallFrame).SetCurrentLine
+//@   modifies cf.currentLine
+//@   ensures cf.currentLine == line
+
+//@ method (*VM).getCurrentCallFrame
+//@   requires vmWF(vm) && vm.csCount >= 1
+//@   pure
+//@   ensures result == vm.callStack[vm.csCount-1] && result != nil
+//@ method (*VM).GetCurrentCallFrame
+//@   requires vmWF(vm) && vm.csCount >= 1
+//@   pure
+//@   ensures result == vm.callStack[vm.csCount-1] && result != nil
+//@ method (*VM).getCurrentScope
+//@   requires vmWF(vm)
+//@   pure
+//@   ensures has(vm.valueStack, vm.csModuleID) ? result == vm.valueStack[vm.csModuleID] && result != nil : result == nil
+//@ method (*VM).GetThisValue
+//@   requires vmWF(vm) && vm.csCount >= 1
+//@   pure
+//@   ensures result == vm.callStack[vm.csCount-1].thisValue
+//@ method (*VM).GetReturnValue
+//@   requires vmWF(vm) && vm.csCount >= 1
+//@   pure
+//@   ensures result == vm.callStack[vm.csCount-1].returnValue
+//@ method (*VM).SetReturnValue
+//@   requires vmWF(vm) && vm.csCount >= 1 && (value == nil || okElem(value))
+//@   modifies vm.callStack[vm.csCount-1].returnValue
+//@   ensures vm.callStack[vm.csCount-1].returnValue == value
+//@ method (*VM).SetCurrentLine
+//@   requires vmWF(vm) && vm.csCount >= 1
+//@   modifies vm.callStack[vm.csCount-1].currentLine
+//@   ensures vm.callStack[vm.csCount-1].currentLine == line
+
+//@ method (*VM).GetCallStack
+//@   requires vmWF(vm)
+//@   pure
+//@   ensures len(result) == vm.csCount && result.base == vm.callStack.base && result.off == vm.callStack.off
+
+//@ method (*VM).initValueStack
+//@   helper
+//@   requires vm != nil && (forall k int :: has(vm.valueStack, k) ==> vm.valueStack[k] != nil)
+//@   modifies map(vm.valueStack)
+//@   ensures has(vm.valueStack, moduleID) && (forall k int :: has(vm.valueStack, k) ==> vm.valueStack[k] != nil)
+//@   ensures forall k int :: k != moduleID ==> has(vm.valueStack, k) == old(has(vm.valueStack, k)) && vm.valueStack[k] == old(vm.valueStack[k])
+//@   ensures old(has(vm.valueStack, moduleID)) ==> vm.valueStack[moduleID] == old(vm.valueStack[moduleID])
+
+// push: the new frame becomes current, with its module's scope present; frames below are untouched
+//@ method (*VM).PushCallFrame
+//@   requires vmWF(vm) && callFrame != nil
+//@   modifies vm.callStack, mem(vm.callStack), vm.csCount, vm.csModuleID, map(vm.valueStack)
+//@   ensures vmWF(vm) && vm.csCount == old(vm.csCount) + 1 && vm.callStack[vm.csCount-1] == callFrame && vm.csModuleID == callFrame.module.id && frameOK(vm)
+//@   ensures forall i int :: 0 <= i && i < old(vm.csCount) ==> vm.callStack[i] == old(vm.callStack[i])
+//@   ensures forall k int :: old(has(vm.valueStack, k)) ==> has(vm.valueStack, k) && vm.valueStack[k] == old(vm.valueStack[k])
+
+// pop: the frame below (if any) becomes current again
+//@ method (*VM).PopCallFrame
+//@   requires vmWF(vm) && vm.csCount >= 1
+//@   modifies vm.callStack, vm.csCount, vm.csModuleID
+//@   ensures vmWF(vm) && vm.csCount == old(vm.csCount) - 1
+//@   ensures vm.csModuleID == (vm.csCount == 0 ? 0 - 1 : vm.callStack[vm.csCount-1].module.id)
+//@   ensures forall i int :: 0 <= i && i < vm.csCount ==> vm.callStack[i] == old(vm.callStack[i])
+//@   ensures vm.csCount >= 1 ==> frameOK(vm)
+
+//@ method (*VM).BeginScope
+//@   requires vmWF(vm)
+//@   modifies vm.valueStack[vm.csModuleID].currentDepth
+//@   ensures has(vm.valueStack, vm.csModuleID) ==> vm.valueStack[vm.csModuleID].currentDepth == old(vm.valueStack[vm.csModuleID].currentDepth) + 1
+//@ method (*VM).EndScope
+//@   requires vmWF(vm)
+//@   modifies vm.valueStack[vm.csModuleID].currentDepth, vm.valueStack[vm.csModuleID].localCount
+//@   ensures has(vm.valueStack, vm.csModuleID) ==> vm.valueStack[vm.csModuleID].currentDepth == old(vm.valueStack[vm.csModuleID].currentDepth) - 1
+
+// lookup: predefined names first, then the current module's scope (innermost declaration)
+//@ method (*VM).FindElement
+//@   requires vmWF(vm) && name != nil && has(vm.valueStack, vm.csModuleID)
+//@   modifies nothing
+//@   ensures r1 == nil ==> okElem(r0)
+//@   ensures [globals-first] has(vm.globals, name.Literal) ==> r1 == nil && r0 == vm.globals[name.Literal]
+//@   ensures [undefined] r1 != nil ==> isRuntimeError(r1, 42)
+
+//@ method (*VM).FindElementWithModule
+//@   requires vmWF(vm) && name != nil && has(vm.valueStack, vm.csModuleID)
+//@   modifies nothing
+//@   ensures r2 == nil ==> okElem(r0)
+//@   ensures [globals-first] has(vm.globals, name.Literal) ==> r2 == nil && r0 == vm.globals[name.Literal] && r1 == NativeCodeModule
+
+// declarations: predefined names can be neither redeclared nor shadowed (error 43); otherwise the scope decides
+//@ method (*VM).DeclareElement
+//@   requires vmWF(vm) && name != nil && okElem(elem)
+//@   modifies vm.valueStack[vm.csModuleID].locals, vm.valueStack[vm.csModuleID].values, vm.valueStack[vm.csModuleID].localCount, mem(vm.valueStack[vm.csModuleID].locals), mem(vm.valueStack[vm.csModuleID].values)
+//@   ensures [predefined-protected] has(vm.globals, name.Literal) && has(vm.valueStack, vm.csModuleID) ==> isRuntimeError(result, 43)
+//@   ensures [no-scope] !has(vm.valueStack, vm.csModuleID) ==> result != nil
+//@ method (*VM).DeclareConstElement
+//@   requires vmWF(vm) && name != nil && okElem(elem)
+//@   modifies vm.valueStack[vm.csModuleID].locals, vm.valueStack[vm.csModuleID].values, vm.valueStack[vm.csModuleID].localCount, mem(vm.valueStack[vm.csModuleID].locals), mem(vm.valueStack[vm.csModuleID].values)
+//@   ensures [predefined-protected] has(vm.globals, name.Literal) && has(vm.valueStack, vm.csModuleID) ==> isRuntimeError(result, 43)
+//@   ensures [no-scope] !has(vm.valueStack, vm.csModuleID) ==> result != nil
+//@ method (*VM).DeclareExternalElement
+//@   requires vmWF(vm) && name != nil && okElem(elem) && module != nil
+//@   modifies vm.valueStack[vm.csModuleID].locals, vm.valueStack[vm.csModuleID].values, vm.valueStack[vm.csModuleID].localCount, mem(vm.valueStack[vm.csModuleID].locals), mem(vm.valueStack[vm.csModuleID].values), map(vm.valueStack[vm.csModuleID].externalRefs)
+//@   ensures [predefined-protected] has(vm.globals, name.Literal) && has(vm.valueStack, vm.csModuleID) ==> isRuntimeError(result, 43)
+//@ method (*VM).SetElement
+//@   requires vmWF(vm) && name != nil && okElem(elem)
+//@   modifies mem(vm.valueStack[vm.csModuleID].values)
+//@   ensures [no-scope] !has(vm.valueStack, vm.csModuleID) ==> result != nil
+
+//@ method (*ModuleGraph).GetModuleByID
+//@   pure
+//@   ensures result == (moduleID >= 0 && moduleID < len(g.modules) ? g.modules[moduleID] : nil)
+//@ method (*ModuleGraph).GetIDFromName
+//@   pure
+//@   ensures r1 == has(g.moduleNameMap, name) && (r1 ==> r0 == g.moduleNameMap[name])
+//@ method (*VM).GetCurrentModule
+//@   requires vmWF(vm)
+//@   pure
+//@ method (*VM).FindModuleByName
+//@   requires vmWF(vm)
+//@   pure
+//@ method (*VM).FindLibrary
+//@   requires vmWF(vm)
+//@   modifies nothing
+//@ method (*VM).GetModuleCodeFinder
+//@   pure
+//@   ensures result == vm.moduleCodeFinder
